@@ -83,13 +83,8 @@ static void do_fwd(Codec c, const Args& a) {
   // coordinates are shifted up to ~1e5 m), so the sliver (class F2) is an ulp of max(|x|, tile)
   if (c == OS) { tol_lat = 4 * ulp(std::fmax(std::fabs(la), 1e5)); tol_lon = 4 * ulp(std::fmax(std::fabs(lo_), 1e5)); }
   bool pole = (c != OS && lat == 90);
-  // OSGB (class G18-1): a negative coordinate above -2^-37 m whose quotient by the tile does not underflow lands in tile -1 with
-  // x + 10^5 rounded to 10^5: every digit wraps to 0 and the reference names the square 100 km away (decided exactly in Lean)
-  auto wrapclass = [&](double v) { return c == OS && v < 0 && v >= -std::ldexp(1.0, -37) && v / 100000 != 0; };
-  if (!(la >= slat - tol_lat && (la < slat + 2 * hlat + tol_lat || pole)))
-    bad(wrapclass(la) ? "containment OSGB-offset-wrap" : "containment", "lat/x outside decoded cell of " + s);
-  if (!(lo_ >= slon - tol_lon && lo_ < slon + 2 * hlon + tol_lon))
-    bad(wrapclass(lo_) ? "containment OSGB-offset-wrap" : "containment", "lon/y outside decoded cell of " + s);
+  if (!(la >= slat - tol_lat && (la < slat + 2 * hlat + tol_lat || pole))) bad("containment", "lat/x outside decoded cell of " + s);
+  if (!(lo_ >= slon - tol_lon && lo_ < slon + 2 * hlon + tol_lon)) bad("containment", "lon/y outside decoded cell of " + s);
 }
 
 static void do_rev(Codec c, const Args& a) {
@@ -290,7 +285,7 @@ void gv::generate(const std::string& tier, uint64_t seed) {
       if (k == 9) { lat = r.pick(std::vector<double>{-1e6, 1.5e6, nextdn(1.5e6), 0, -0.0, NAN, 1e7}); }
       if (k == 8) { lon = r.pick(std::vector<double>{-5e5, 2e6, nextdn(2e6), 0, -0.0, NAN, -1e7}); }
       if (k == 10) {
-        // tile -1 (x + 10^5 is a rounded addition for -5*10^4 < x < 0), tiny negatives down to the subnormals, the wrap threshold -2^-37 +- ulps
+        // tile -1 (x + 10^5 is a rounded addition for -5*10^4 < x < 0), tiny negatives down to the subnormals, the carry threshold -2^-37 +- ulps (finding F74)
         auto neg = [&]() { int t = r.irange(0, 3);
           return t == 0 ? -std::ldexp(r.range(1, 2), r.irange(-1074, -30)) : t == 1 ? -nextup(std::ldexp(1.0, -37 - r.irange(0, 1)), r.irange(-2, 2)) :
                  t == 2 ? -r.range(0, 5e4) : nextup(-std::floor(r.range(0, 5e4) * 1e3) / 1e3, r.irange(-2, 2)); };
